@@ -33,7 +33,9 @@ AXIOMS_OK = []
 # second tie to the code (tools/py2coq.py guard mode + coq/theories/GenProofs): the test that decides between overwriting and
 # appending the sensitivity entry in WorstCaseEvaluator.run is translated on every run and proved equal to the model's (F11)
 from harness.core import translated_specs
-TRANSLATED = translated_specs("WorstCaseGuardGen", "EvaluatorsGen")
+# ... and the WHOLE of WorstCaseEvaluator / GradientEvaluator.evaluate and run (front-end tools/py2coq_eff.py): the order of
+# super().evaluate / add / run, the post-processing loop over self.individuals, the reset of both work lists (F2, F14 sites)
+TRANSLATED = translated_specs("WorstCaseGuardGen", "EvaluatorsGen", "EvaluatorsWholeGen")
 TRUSTED = [
     "Coq 8.16.1 kernel, vm_compute for model evaluation (no native_compute)",
     "hand-written model Model/Evaluators.v (heap of Individual objects + the two work lists) tied to operators.py "
